@@ -104,7 +104,9 @@ CLAIMED.update({
         text="Restricted claim. Proof on the real ModuleFinder.find_package over an abstract file system (membership/existence predicates): the decision for one arbitrary "
              "search path from any list of namespace directories collected so far (regular package > stubs-only package > module file; bare directory collected, "
              "search continues; a returned package is always justified by the file system; only ModuleNotFoundError escapes), and the single-search-path table "
-             "(module file not hidden by a bare directory). Discovery of sub-modules, listing-order independence and equality with the import system are a bounded native tier.",
+             "(module file not hidden by a bare directory); ModuleFinder.iter_submodules for one generic module file from an arbitrary set of already-claimed "
+             "sub-package directories (skip rule, own __init__ silent, sub-package __init__ claims its directory, name parts, the consulted skip set is a "
+             "snapshot the pass does not change). Listing-order independence and equality with the import system are a bounded native tier.",
         note="Listings are consumed through membership only (a change that depends on order becomes undecided); module names without dots. Known finding C14-F1 "
              "(namespace packages with clashing portions).",
         ref="DESIGN.md 3/C14"),
